@@ -336,6 +336,9 @@ type runProbe struct {
 	calls      map[int]*int64   // user-function invocations per node
 	incrs      map[int]*int64   // metrics increments performed per counter index
 	shardCalls map[[2]int]int64 // (node, shard) -> invocations, for functions that know their shard
+	activeSrc  map[[2]int]int   // (node, shard) -> source attempts currently between first call and EOF
+	overlaps   int              // times a source attempt started while another attempt of the same shard was active
+	attempts   map[[2]int]int   // (node, shard) -> source attempts started
 	active     int64            // user functions currently executing (concurrency gauge)
 	maxAct     int64
 }
@@ -346,7 +349,7 @@ func probeFor(run string) *runProbe {
 	if p, ok := probes.Load(run); ok {
 		return p.(*runProbe)
 	}
-	p := &runProbe{entries: map[recKey]*recEntry{}, calls: map[int]*int64{}, incrs: map[int]*int64{}, shardCalls: map[[2]int]int64{}}
+	p := &runProbe{entries: map[recKey]*recEntry{}, calls: map[int]*int64{}, incrs: map[int]*int64{}, shardCalls: map[[2]int]int64{}, activeSrc: map[[2]int]int{}, attempts: map[[2]int]int{}}
 	act, _ := probes.LoadOrStore(run, p)
 	return act.(*runProbe)
 }
@@ -515,10 +518,25 @@ func BuildSlice(sp Spec, args []bigslice.Slice) bigslice.Slice {
 					return []reflect.Value{reflect.ValueOf(k), ev}
 				}
 				pr := probeFor(spec.Run)
+				key := [2]int{ni, shard}
 				pr.mu.Lock()
-				pr.shardCalls[[2]int{ni, shard}]++
+				pr.shardCalls[key]++
+				if *state == 0 {
+					// first call of an attempt (a task execution) of this shard
+					pr.attempts[key]++
+					pr.activeSrc[key]++
+					if pr.activeSrc[key] > 1 {
+						pr.overlaps++
+					}
+				}
 				pr.mu.Unlock()
+				endAttempt := func() {
+					pr.mu.Lock()
+					pr.activeSrc[key]--
+					pr.mu.Unlock()
+				}
 				if err := userCall(nil, spec, ni); err != nil {
+					endAttempt()
 					return ret(0, err)
 				}
 				rows := sourceRows(n, shard)
@@ -548,6 +566,7 @@ func BuildSlice(sp Spec, args []bigslice.Slice) bigslice.Slice {
 				done += k
 				*state = done | (call+1)<<24
 				if done == len(rows) && (withEOF || (k == 0 && ch > 0)) {
+					endAttempt()
 					return ret(k, sliceio.EOF)
 				}
 				return ret(k, nil)
